@@ -204,8 +204,12 @@ func describe(prop, tier string) {
 		Gen   int      `json:"generated"`
 		Plans int      `json:"plans"`
 		Sweep int      `json:"sweep_types"`
+		Names []string `json:"sweep_names,omitempty"`
 	}
 	out := d{Types: plainTypes(nil), Gen: len(genTypes), Plans: PlanCount(prop, tier), Sweep: sweepCount()}
+	if prop == "C14" {
+		out.Names = sweepNames()
+	}
 	b, _ := json.Marshal(out)
 	os.Stdout.Write(b)
 }
